@@ -123,12 +123,24 @@ impl WalletUnderTest {
         limit: usize,
     ) -> Result<ScanSummary, String> {
         let from_state = sim.state_at(from - 1);
+        self.scan_from_source_with_state(sim, src, from, &from_state, limit)
+    }
+
+    /// As `scan_from_source`, with the prior chain state supplied by the caller (possibly wrong).
+    pub fn scan_from_source_with_state(
+        &mut self,
+        sim: &ChainSim,
+        src: &MemBlockSource<'_>,
+        from: u32,
+        from_state: &zcash_client_backend::data_api::chain::ChainState,
+        limit: usize,
+    ) -> Result<ScanSummary, String> {
         let r = scan_cached_blocks(
             &sim.net,
             src,
             &mut self.db,
             BlockHeight::from_u32(from),
-            &from_state,
+            from_state,
             limit,
         );
         match r {
